@@ -37,7 +37,7 @@ def make_line(ctx, tag, name):
         return mk_str(chars), {'model_digits': digs}
     body = sym_chars('c', 80)
     chars = list(t) + body[6:]
-    if tag in ('ATOM  ', 'HETATM'):
+    if tag in ('ATOM  ', 'HETATM') and name != 'SYMB':
         chars[12:16] = [ord(c) for c in name]
     for c in chars:
         if isinstance(c, Sym):
@@ -205,8 +205,16 @@ def spec_cases(step):
     printed = Not(And(step.is_h, not step.keep)) if isinstance(step.is_h, bool) else True
     printed = (not (step.is_h and not step.keep))
     cases = [(skip, same, None)]
-    nm = step.name.strip()
     r = f['res']
+    if step.name == 'SYMB':
+        # fully symbolic atom-name field: the three name classes become conditions (strip forks on blanks)
+        from pyvc.builtins_model import strip_forks
+        stripped = mk_str(strip_forks(ex, str_chars_of(step.line)[12:16]))
+        is_n = ex.equals(stripped, 'N')
+        is_oxt = Or(ex.equals(stripped, 'OXT'), ex.equals(stripped, "O''"))
+        name_classes = [('N', is_n), ('OXT', is_oxt), ('CA', And(Not(is_n), Not(is_oxt)))]
+    else:
+        name_classes = [(step.name.strip(), True)]
     if step.tag == 'HETATM':
         cases.append((eff, same, (pre['model'], alt_code, None) if printed else None))
         return cases
@@ -217,7 +225,8 @@ def spec_cases(step):
         branches = [(new_res, dict(pre, nterm_residue=r, old_residue=None)), (Not(new_res), dict(pre))]
     else:
         branches = [(True, dict(pre))]
-    for bc, st in branches:
+    for (nm, ncond), (bc, st) in [(a, b) for a in name_classes for b in branches]:
+        bc = And(bc, ncond)
         if nm == 'N':
             is_start = False if st['nterm_residue'] == NEXT else ex.equals(st['nterm_residue'], r)
             for c2, term in ((is_start, 'N+'), (Not(is_start) if not isinstance(is_start, bool) else (not is_start), None)):
